@@ -58,6 +58,8 @@ class DryReal:
                 op["collision_flag"] = rng.choice([["--tag-scope", "branch"], ["--ignore-vcs-tag"]])
             elif r < 0.55:
                 op["perturb"] = "remote_tag"      # a colleague has released in the meantime; the tag arrives with the fetch
+            elif r < 0.62:
+                op["perturb"] = "dead_glob"       # a glob entry that matches no file at all (docs/*.rst after the docs moved)
             op["pick"] = rng.randrange(1000)
             ops.append(op)
         return {"project": project, "ops": ops}
@@ -118,9 +120,15 @@ class DryReal:
                     if st2 != state:
                         override = {path_r: st2}
                         ctx.probe("stale_partial_occurrence")
-            wa = simworld.World(project)
+            proj_use = project
+            if perturb == "dead_glob":
+                import copy as _copy
+                proj_use = _copy.deepcopy(project)
+                proj_use["cfg"]["file_patterns"] = list(proj_use["cfg"]["file_patterns"]) + [["nowhere/*.rst", ["{version}"]]]
+                ctx.probe("glob_entry_without_any_file")
+            wa = simworld.World(proj_use)
             wa.materialise(state, text, override)
-            wb = simworld.World(project)
+            wb = simworld.World(proj_use)
             wb.materialise(state, text, override)
             if perturb == "break":
                 from campaigns import faultpos
